@@ -102,6 +102,8 @@ def cases(rng, tier):
         entry = rng.choice(["pl_show_multi_phase", "pl_save_multi_phase", "pl_show_multi_uversky", "pl_save_multi_uversky"])
         a = dict(kw, xs=xs, ys=ys, labels=labels, fmt=rng.choice(["png", "pdf"]))
         a.pop("label", None)
+        if rng.random() < 0.5:
+            a["as_array"] = True        # coordinates passed as float64 NumPy arrays
         yield Case([ptok(entry, a)], {"kind": "plots-multi", "entry": entry, "args": a})
 
 
@@ -231,6 +233,8 @@ def judge(case, reals, gens, specs):
 
     def bad(msg):
         out.append(("violation", 0, "%s: %s (args %s)" % (entry, msg, json.dumps(a)[:200])))
+    if a.get("as_array") and d.get("caller_arrays_unchanged") is False:
+        bad("the coordinate arrays passed by the caller were modified")
     show = "_show_" in entry
     if show and not (d.get("returned") and d.get("returned_is_plt")):
         bad("getFig=True did not return the figure")
